@@ -429,6 +429,10 @@ def exec_op(env, op, th=None):
     if kind == 'gc':
         gc.collect()
         return {'status': 'ok', 'value': ['none'], 'trace': []}
+    if kind == 'drop':
+        # the caller lets go of a function (its Loader/Dumper class becomes garbage)
+        env.fns.pop(op['slot'], None)
+        return {'status': 'ok', 'value': ['none'], 'trace': []}
     if kind == 'mk':
         ns = env.ns[op['spec']]
 
@@ -530,6 +534,7 @@ def run_plan(plan, pristine_fp, yatiml_dir, yaml_dir, profile=False):
     """Executed in a forked child of the pristine worker.  Returns a JSON dict."""
     from sim import sched
     gc.disable()
+    gc.freeze()     # explicit gc operations of a plan look only at what the plan created
     # (Hypothesis raises the limit while it runs a test; a replay has no Hypothesis)
     sys.setrecursionlimit(CHILD_RECURSION_LIMIT)
     mount = simio.Mount()
@@ -644,7 +649,7 @@ def _run_plan(plan, pristine_fp, yatiml_dir, yaml_dir, mount, sched, profile=Fal
             n = len(oplist)
             for r in range(1, repeat):
                 for i, op in enumerate(oplist):
-                    if op['op'] == 'mk':
+                    if op['op'] == 'mk' and not knobs.get('churn'):
                         continue
                     th.cur_op = i
                     out = exec_op(env, op, th)
